@@ -917,13 +917,11 @@ class CommandPipeline:
                 self._return_terminal()
             return
 
-        # Default: defer chain operands to the BoolOp wrapper.
-        if getattr(spec, "in_boolop", False):
-            return
-
-        # Standalone — only raise here if the user explicitly opted in
-        # to per-command raising.  Otherwise let the AST wrapper around
-        # the statement do it via $XONSH_SUBPROC_RAISE_ERROR.
+        # Raise here only if the user explicitly opted in to per-command
+        # raising; that applies to chain operands as well (``ls /no || echo fb``
+        # raises on ``ls``).  Otherwise the AST wrapper around the statement
+        # (or the BoolOp wrapper of a chain) does it via
+        # $XONSH_SUBPROC_RAISE_ERROR.
         if XSH.env.get("XONSH_SUBPROC_CMD_RAISE_ERROR"):
             try:
                 raise subprocess.CalledProcessError(rtn, spec.args, output=self.output)
